@@ -550,3 +550,13 @@ Lemma set_item_int : forall s z it,
   | IErr e => IErr e
   end.
 Proof. intros s z it. simpl. destruct (py_index _ _); reflexivity. Qed.
+
+Lemma py_getattr_both : forall class_attrs s k,
+  existsb (str_eqb k) class_attrs = false -> str_eqb k s_mnemonic_transforms = false ->
+  (contains s k = true -> py_getattr class_attrs s k = ires_map AttrItem (getitem s (KStr k))) /\
+  (contains s k = false -> py_getattr class_attrs s k = IErr AttributeError).
+Proof.
+  intros ca s k H1 H2. split; intro C.
+  - apply py_getattr_present; assumption.
+  - unfold py_getattr. rewrite H1, (getattr_missing s k C). reflexivity.
+Qed.
